@@ -34,6 +34,12 @@ type c16Built struct {
 	Seed uint64 `json:"seed"`
 }
 
+// c16List: a list of N small, pairwise different transactions / UTXOs through the four list dialects.
+type c16List struct {
+	N    int    `json:"n"`
+	Seed uint64 `json:"seed"`
+}
+
 const c16MaxMoney = 2_100_000_000_000_000
 
 var c16NodeWrappers = []string{"output.NodeJSON", "utxo.NodeJSON"}
@@ -75,6 +81,7 @@ func init() {
 	amt := mon.Kind(p, "amount", c16JudgeAmt)
 	txk := mon.Kind(p, "tx", c16JudgeTx)
 	built := mon.Kind(p, "built", c16JudgeBuilt)
+	lists := mon.Kind(p, "list", c16JudgeList)
 
 	p.Run = func(c *mon.Ctx) {
 		// ---- exhaustive low range -----------------------------------------
@@ -301,6 +308,22 @@ func init() {
 			for _, l := range lens {
 				mk(2, 2, l, "out")
 				mk(2, 2, l, "unlock")
+			}
+		}
+		c.Phase("long-lists") // lists of 0 .. 1000 elements (every length up to 70, then around powers of two and round numbers) through Txs, Txs.NodeJSON, UTXOs, UTXOs.NodeJSON
+		{
+			var ns []int
+			for n := 0; n <= 70; n++ {
+				ns = append(ns, n)
+			}
+			ns = append(ns, 99, 100, 101, 127, 128, 129, 130, 131, 255, 256, 257, 258, 259)
+			if c.Thorough {
+				ns = append(ns, 511, 512, 513, 1000, 1001, 1002, 1003, 4097)
+			}
+			for i, n := range ns {
+				if c.Case(uint64(i)) {
+					lists(c, &c16List{N: n, Seed: c.Rand(uint64(i)).Uint64()})
+				}
 			}
 		}
 		c.Phase("library-built")
@@ -858,4 +881,85 @@ func c16JudgeBuilt(c *mon.Ctx, in *c16Built) {
 	kept("built:signed+output")
 	c16TxDialects(c, tx, "built:signed")
 	c.Sample("built", 1, func() any { return map[string]any{"seed": in.Seed, "signed_tx": hex.EncodeToString(tx.Bytes())} })
+}
+
+// c16JudgeList: element k of what comes back is element k of what went in, for every k, and nothing is added.
+func c16JudgeList(c *mon.Ctx, in *c16List) {
+	c.Eval(1)
+	r := prng.New(in.Seed, "C16-list", 0)
+	var txs bt.Txs
+	var us bt.UTXOs
+	for k := 0; k < in.N; k++ {
+		tx := bt.NewTx()
+		tx.Version, tx.LockTime = uint32(1+k%2), uint32(k)
+		inp := &bt.Input{PreviousTxOutIndex: uint32(k), SequenceNumber: 0xffffffff - uint32(k%3), UnlockingScript: bscript.NewFromBytes(append([]byte{0x01, byte(k)}, r.Bytes(r.Intn(4))...))}
+		_ = inp.PreviousTxIDAdd(r.Bytes(32))
+		tx.Inputs = append(tx.Inputs, inp)
+		tx.Outputs = append(tx.Outputs, &bt.Output{Satoshis: uint64(1000 + k), LockingScript: bscript.NewFromBytes(gen.P2PKH(r.Bytes(20)))})
+		txs = append(txs, tx)
+		us = append(us, &bt.UTXO{TxID: r.Bytes(32), Vout: uint32(k), Satoshis: uint64(2000 + k), LockingScript: bscript.NewFromBytes(gen.P2PKH(r.Bytes(20)))})
+	}
+	for _, d := range []string{"Txs", "Txs.NodeJSON", "UTXOs", "UTXOs.NodeJSON"} {
+		var src, dst any
+		var backT bt.Txs
+		var backU bt.UTXOs
+		switch d {
+		case "Txs":
+			src, dst = txs, &backT
+		case "Txs.NodeJSON":
+			src, dst = txs.NodeJSON(), backT.NodeJSON()
+		case "UTXOs":
+			src, dst = us, &backU
+		default:
+			src, dst = us.NodeJSON(), backU.NodeJSON()
+		}
+		var js []byte
+		var err error
+		if !c.Try("json.Marshal("+d+")", func() { js, err = json.Marshal(src) }) {
+			continue
+		}
+		if err != nil {
+			c16Viol(c, "C16:list:marshal-error:"+d, func() string { return fmt.Sprintf("json.Marshal(%s) of %d elements: %v", d, in.N, err) })
+			continue
+		}
+		if !c.Try("json.Unmarshal("+d+")", func() { err = json.Unmarshal(js, dst) }) {
+			continue
+		}
+		if err != nil {
+			c16Viol(c, "C16:list:unmarshal-error:"+d, func() string {
+				return fmt.Sprintf("json.Unmarshal(%s) of the library's own %d-element list: %v", d, in.N, err)
+			})
+			continue
+		}
+		got := len(backT)
+		if d == "UTXOs" || d == "UTXOs.NodeJSON" {
+			got = len(backU)
+		}
+		if got != in.N {
+			c16Viol(c, "C16:list-length-changed:"+d, func() string { return fmt.Sprintf("%s round trip of %d elements returned %d", d, in.N, got) })
+			continue
+		}
+		bad := -1
+		why := ""
+		for k := 0; k < in.N && bad < 0; k++ {
+			if d == "Txs" || d == "Txs.NodeJSON" {
+				if diff := c16SameTx(txs[k], backT[k]); diff != "" {
+					bad, why = k, diff
+				}
+			} else if u := backU[k]; u == nil || !bytes.Equal(u.TxID, us[k].TxID) || u.Vout != us[k].Vout || u.Satoshis != us[k].Satoshis || u.LockingScript == nil || !bytes.Equal(*u.LockingScript, *us[k].LockingScript) {
+				bad, why = k, "utxo differs"
+			}
+		}
+		if bad >= 0 {
+			c16Viol(c, "C16:list:element-changed:"+d, func() string {
+				return fmt.Sprintf("%s round trip of %d elements: element %d came back different (%.200s)", d, in.N, bad, why)
+			})
+			continue
+		}
+		c.Count("list:roundtrip:" + d)
+		c.Max("max:list-length:"+d, float64(in.N))
+	}
+	if in.N > 2 {
+		c.Distinct(prng.HashBytes([]byte("list"), []byte{byte(in.N), byte(in.N >> 8)}))
+	}
 }
